@@ -174,6 +174,13 @@ Features(p) ==
     \cup (IF \E a \in AlgsOf(p) : Cardinality(D_Children(p, a)) > 1 THEN {"shared-input"} ELSE {})
     \cup (IF \E a, b, c, d \in AlgsOf(p) : b # c /\ {<<a, b>>, <<a, c>>, <<b, d>>, <<c, d>>} \subseteq E THEN {"diamond"} ELSE {})
     \cup (IF \E a, b \in AlgsOf(p) : a # b /\ p.pkg[a] = p.pkg[b] THEN {"shared-package"} ELSE {})
+    \* an algorithm with several inputs and an ancestor at least three edges away that no shorter chain reaches
+    \cup (IF \E e \in Chained(E, 3) : e \notin E \cup Chained(E, 2) /\ Cardinality(D_Parents(p, e[2])) > 1
+          THEN {"deep-join"} ELSE {})
+    \* ... or a descendant of a join whose branches end in different roots two edges further up
+    \cup (IF \E j \in AlgsOf(p) : \E b, c \in D_Parents(p, j) :
+               b # c /\ D_Anc(rel, b) # {} /\ D_Anc(rel, c) # {} /\ D_Anc(rel, b) \cap D_Anc(rel, c) = {} /\ D_Children(p, j) # {}
+          THEN {"join-with-descendant"} ELSE {})
 
 -----------------------------------------------------------------------------
 (* 3. TRANSCRIPTION OF Construct                                           *)
